@@ -523,8 +523,11 @@ func runEviction(c *mc.Ctx, r *mc.Result) {
 		return
 	}
 	const N = 5000
-	r.Bounds["eviction"] = fmt.Sprintf("3 scenarios: one write transaction adding/updating/deleting under %d distinct pre-registered inner nodes (copy cache: 4096), snapshots every 512 operations, re-read at the end and after commit/abort", N)
-	for variant := 0; variant < 3; variant++ {
+	r.Bounds["eviction"] = fmt.Sprintf("6 scenarios (3 kinds of write x snapshots during the first pass or only after it): one write transaction adding/updating/deleting under %d distinct pre-registered inner nodes (copy cache: 4096), then coming back to every 7th of them with a second write, snapshots every 512 (256) operations, re-read at the end and after commit/abort", N)
+	for v6 := 0; v6 < 6; v6++ {
+		// sparse: no snapshot during the first pass, so that the copy cache really overflows (taking a snapshot
+		// empties it); one snapshot and one iterator are taken right after the first pass instead
+		variant, sparse := v6%3, v6 >= 3
 		f, _ := fox.New()
 		for i := 0; i < N; i++ {
 			f.Handle("GET", fmt.Sprintf("/n%d/a", i), fx.VerHandler(1), fx.WithVer(1))
@@ -564,7 +567,7 @@ func runEviction(c *mc.Ctx, r *mc.Result) {
 			case 2:
 				txn.Delete("GET", fmt.Sprintf("/n%d/b", i))
 			}
-			if i%512 == 511 {
+			if (!sparse && i%512 == 511) || (sparse && i == N-1) {
 				i := i
 				s := txn.Snapshot()
 				take(i, func() string {
@@ -576,10 +579,33 @@ func runEviction(c *mc.Ctx, r *mc.Result) {
 			}
 			r.Transitions++
 		}
+		// second pass: the transaction comes back to nodes it copied long ago (their copies have left the copy
+		// cache since) while snapshots taken in between still reference those copies
+		back := 0
+		for i := 0; i < N; i += 7 {
+			switch variant {
+			case 0:
+				txn.Update("GET", fmt.Sprintf("/n%d/c", i), fx.VerHandler(3), fx.WithVer(3))
+			case 1:
+				txn.Update("GET", fmt.Sprintf("/n%d/a", i), fx.VerHandler(3), fx.WithVer(3))
+			case 2:
+				txn.Handle("GET", fmt.Sprintf("/n%d/b", i), fx.VerHandler(3), fx.WithVer(3))
+			}
+			back++
+			if back%256 == 0 {
+				at := N + back
+				s := txn.Snapshot()
+				take(at, func() string {
+					n, sm := count(s.Iter())
+					return fmt.Sprintf("txn-snapshot@%d n=%d sum=%d len=%d", at, n, sm, s.Len())
+				})
+			}
+			r.Transitions++
+		}
 		check := func(when string) {
 			for _, s := range snaps {
 				if now := s.read(); now != s.was {
-					r.Violate("eviction", "snapshot-changed", fmt.Sprintf("variant %d: snapshot taken at op %d reads %q %s, was %q", variant, s.at, now, when, s.was), map[string]any{"variant": variant})
+					r.Violate("eviction", "snapshot-changed", fmt.Sprintf("variant %d (sparse=%v): snapshot taken at op %d reads %q %s, was %q", variant, sparse, s.at, now, when, s.was), map[string]any{"variant": v6})
 				}
 			}
 		}
@@ -591,7 +617,7 @@ func runEviction(c *mc.Ctx, r *mc.Result) {
 		}
 		check("after the transaction ended")
 		n, _ := count(f.Iter())
-		want := map[int]int{0: 3 * N, 1: 2 * N, 2: N}[variant]
+		want := map[int]int{0: 3 * N, 1: 2 * N, 2: N + back}[variant]
 		if n != want || f.Len() != want {
 			r.Violate("eviction", "wrong-final-state", fmt.Sprintf("variant %d: %d routes (Len %d) after the large transaction, want %d", variant, n, f.Len(), want), map[string]any{"variant": variant})
 		}
